@@ -31,7 +31,8 @@ Import ListNotations.
 From Cffi Require Import C12.Spec C12.Gen.
 Local Open Scope Z_scope.
 
-Inductive errclass := FFIError | TypeError.
+Inductive errclass := FFIError | TypeError
+  | BuildError.   (* VerificationError raised while the module is generated/compiled *)
 Inductive res (A : Type) := Ok (a : A) | Err (e : errclass).
 Arguments Ok {A} a.
 Arguments Err {A} e.
@@ -104,9 +105,18 @@ Definition check_value_of (k : const_kind) (cdef : option Z) : option Z :=
 (* lib.X for a constant X of kind k whose C value is c (of promoted type T), declared in the
    cdef with value [cdef] (None = '...') *)
 Definition lib_constant (k : const_kind) (T : cty) (c : Z) (cdef : option Z) : option (res Z) :=
-  match const_getter T c (check_value_of k cdef) with
-  | Some (n, o) => Some (realize_global_int n o)
-  | None => None
+  match check_value_of k cdef with
+  | Some e =>
+      if negb (gen_check_in_domain e) then Some (Err BuildError)   (* recompiler refuses to emit it *)
+      else match const_getter T c (Some e) with
+           | Some (n, o) => Some (realize_global_int n o)
+           | None => None
+           end
+  | None =>
+      match const_getter T c None with
+      | Some (n, o) => Some (realize_global_int n o)
+      | None => None
+      end
   end.
 
 (* ------------------------------------------------------------------ (b) structs *)
@@ -233,7 +243,7 @@ Definition report_layout (rep : report) : layout :=
 (* ------------------------------------------------------------------ comparison helpers
    used by the correspondence run (outputs of the implementation are written as these) *)
 Definition err_eqb (a b : errclass) : bool :=
-  match a, b with FFIError, FFIError | TypeError, TypeError => true | _, _ => false end.
+  match a, b with FFIError, FFIError | TypeError, TypeError | BuildError, BuildError => true | _, _ => false end.
 
 Definition resZ_eqb (a b : option (res Z)) : bool :=
   match a, b with
